@@ -206,6 +206,12 @@ func (m *Machine) call(h *wenv.WalletH, what string, fn func() error) (err error
 			m.logf("%s %s PANICKED: %v", h.Name, what, p)
 			m.Fail("C17", "wallet_panic|"+what, "%v", p)
 		}
+		// every mint here is honest and every token comes from a wallet of this history: a DLEQ proof the wallet calls
+		// invalid is a genuine one it verified against the wrong key (or a wallet-made one it built wrongly)
+		if err != nil && strings.Contains(strings.ToLower(err.Error()), "invalid dleq") {
+			m.Count["wallet_called_a_dleq_invalid"]++
+			m.Fail("C10", "wallet_rejects_genuine_dleq|"+strings.SplitN(what, " ", 2)[0], "%s %s: %v", h.Name, what, err)
+		}
 	}()
 	return fn()
 }
